@@ -14,7 +14,8 @@ policy/simple_validator.rs
    validate_commitment_tx                                            `validateCommitmentTx`
    validate_counterparty_commitment_tx / validate_holder_commitment_tx `validateCounterparty` `validateHolder`
 policy/onchain_validator.rs  ensure_funding_buried_and_unspent + wrappers `ensureFundingBuried`, inside `validateCounterparty/Holder`
-util/transaction_utils.rs  estimate_feerate_per_kw, expected_commitment_tx_weight  `estimateFeerate` `commitmentWeight`
+util/transaction_utils.rs  expected_commitment_tx_weight                `commitmentWeight`
+                      (validate_fee's exact u128 rate)                `exactFeerate`
 policy/validator.rs   set_next_counterparty_commit_num / set_next_counterparty_revoke_num /
                       EnforcementState::set_next_*                   `setNextCpCommit` `setNextCpRevoke`
 tx/tx.rs              CommitmentInfo2::claimable_balance (its `expect`s) `claimablePanics`
@@ -252,10 +253,10 @@ def commitmentWeight (anchors : Bool) (nHtlc : Nat) : Nat :=
   (if anchors then Gen.Policy.commitmentBaseAnchorWeight else Gen.Policy.commitmentBaseWeight)
     + nHtlc * Gen.Policy.commitmentWeightPerHtlc
 
-/-- `estimate_feerate_per_kw` (after the F5 fix): saturating, clamped to u32::MAX.
+/-- the rate `validate_fee` compares (after fix 3751e9c): `(fee as u128 * 1000 + 999) / weight as u128`,
+    exact -- a u64 fee cannot overflow u128 here -- and no longer clamped into u32.
     `weight = 0` would be a division panic; both call sites pass a positive weight. -/
-def estimateFeerate (fee weight : Nat) : Nat :=
-  U32.clamp (U64.satAdd (U64.satMul fee 1000) 999 / weight)
+def exactFeerate (fee weight : Nat) : Nat := (fee * 1000 + 999) / weight
 
 /-! ### SimpleValidator pieces -/
 
@@ -299,7 +300,7 @@ def validateExpiry (p : Policy) (c : ChainState) (expiry : Nat) : Except Kind Un
 /-- `validate_fee(tag, sum_inputs, sum_outputs, weight)` -/
 def validateFee (p : Policy) (t : Tag) (sumIn sumOut weight : Nat) : Except Kind Unit := do
   hard .fee (decide (sumIn < sumOut))
-  let rate := estimateFeerate (sumIn - sumOut) weight
+  let rate := exactFeerate (sumIn - sumOut) weight
   check p t (decide (rate < p.minFeerate))
   check p t (decide (rate > p.maxFeerate))
 
